@@ -26,7 +26,9 @@ import hashlib
 import importlib
 import json
 import os
+import signal
 import sys
+import threading
 import time
 import traceback
 import warnings
@@ -53,6 +55,10 @@ class Refusal(Exception):
 
 class HarnessError(Exception):
     pass
+
+
+class CaseTimeout(BaseException):
+    """Raised by the per-case watchdog; derives from BaseException so that no `except Exception` in a check turns it into a verdict."""
 
 
 def load_known_findings():
@@ -177,14 +183,32 @@ class Stats:
 def execute_case(mod, desc, known, stats: Stats | None):
     """Run one case. Returns ctx. Raises HarnessError for harness problems."""
     ctx = Ctx(mod.ID, known)
-    with warnings.catch_warnings():
-        warnings.simplefilter("ignore")
-        try:
-            mod.run_case(desc, ctx)
-        except Refusal:
-            pass
-        except Violation as v:  # a check may raise directly
-            ctx.violation(v.sub, v.msg, **v.disc)
+    limit = float(os.environ.get("VERIF_CASE_TIMEOUT") or getattr(mod, "CASE_TIMEOUT", 180))
+    armed = False
+    if threading.current_thread() is threading.main_thread():
+        def on_alarm(signum, frame):
+            raise CaseTimeout()
+        signal.signal(signal.SIGALRM, on_alarm)
+        signal.setitimer(signal.ITIMER_REAL, limit)
+        armed = True
+    try:
+        with warnings.catch_warnings():
+            warnings.simplefilter("ignore")
+            try:
+                mod.run_case(desc, ctx)
+            except Refusal:
+                pass
+            except Violation as v:  # a check may raise directly
+                ctx.violation(v.sub, v.msg, **v.disc)
+    except CaseTimeout:
+        # a time budget hit is inconclusive: neither a pass nor a violation.  It is counted; a run in which more than 5 %
+        # of the cases end this way is reported as a harness error (exit 2) by run_check.
+        ctx = Ctx(mod.ID, known)
+        ctx.refusal = f"INCONCLUSIVE: case exceeded {limit:.0f}s"
+        print(f"INCONCLUSIVE: property={mod.ID} case exceeded {limit:.0f}s: {json.dumps(desc, sort_keys=True)[:400]}", file=sys.stderr)
+    finally:
+        if armed:
+            signal.setitimer(signal.ITIMER_REAL, 0)
     if stats is not None:
         stats.evaluations += 1
         seen = set()
@@ -417,6 +441,9 @@ def run_check(prop_id, tier, seed, collect=False, shards_override=None, cases_ov
             hits = stats.known.get(e["what"], 0)
             print(f"KNOWN-FINDING: property={mod.ID} {e['what']} [hits this run: {hits}]")
 
+    inconclusive = sum(n for k, n in stats.refusals.items() if k.startswith("INCONCLUSIVE"))
+    if inconclusive > max(2, 0.05 * stats.evaluations):
+        stats.errors.append(f"{inconclusive} of {stats.evaluations} cases hit the per-case time limit (inconclusive run)")
     if stats.errors:
         for e in stats.errors:
             print("HARNESS-ERROR:", e, file=sys.stderr)
